@@ -20,7 +20,7 @@ VOutcome(c) ==
 VRaises(c) == c.nl # c.nr \/ (c.op = "cross" /\ c.nl # 3)
 VCases == {[fam |-> "vbin", op |-> op, nl |-> nl, nr |-> nr, rk |-> "vec", lu |-> i, ru |-> j] : op \in VOps, nl \in 1..3, nr \in 1..3, i \in VPool, j \in VPool}
           \cup {[fam |-> "vbin", op |-> op, nl |-> nl, nr |-> 0, rk |-> rk, lu |-> i, ru |-> j] : op \in VOps, nl \in 1..3, rk \in VRhsKinds \ {"vec"}, i \in VPool, j \in VPool}
-          \cup {[fam |-> "vun", op |-> op, nl |-> nl, lu |-> i] : op \in {"neg", "pow2", "sqrt", "abs", "rmul2", "rdiv2", "to_cm", "norm", "isfinite", "sum", "concatenate", "slice", "copy"}, nl \in 1..3, i \in VPool}
+          \cup {[fam |-> "vun", op |-> op, nl |-> nl, lu |-> i] : op \in {"neg", "pow2", "powm1f", "sqrt", "abs", "rmul2", "rdiv2", "to_cm", "to_cm0", "norm", "isfinite", "sum", "concatenate", "slice", "copy"}, nl \in 1..3, i \in VPool}
           \cup {[fam |-> "vprod", op |-> op, nl |-> nl, nr |-> nr, lu |-> i, ru |-> j] : op \in {"dot", "cross"}, nl \in {3}, nr \in {3}, i \in VPool, j \in VPool}
           \cup {[fam |-> "vprod", op |-> "dot", nl |-> nl, nr |-> nl, lu |-> i, ru |-> j] : nl \in 1..2, i \in {IdxOf("m")}, j \in {IdxOf("m"), IdxOf("cm")}}
           \* numpy functions of two Vectors / of a sequence of Vectors: component-wise, operands with different counts rejected
